@@ -89,6 +89,7 @@ func rulesC07(c *Ctx, r *Report) {
 	rulesScanErr(c, r, []string{"formats/fastq"})
 	rulesStreamErrorLast(c, r)
 	rulesWriters(c, r)
+	rulesFastqLayout(c, r) // the Scanner hands out a truncated last line before it reports the error: only the layout guards (four lines read, equal lengths) keep such a line out of a record
 }
 
 func sortedStrings(s []string) []string {
